@@ -201,16 +201,18 @@ theorem failed_tx_no_effect (s : St) (op : Op) (h : step s op = none) : run s [o
 
 /-! ### non-vacuity -/
 
-/-- a concrete history: two users with energy, a deposit, a week passes, both claim — the first
-    claimer is paid its share, the total energy is non-zero, the ledger moved. -/
+/-- a concrete history: two users with energy register in week 1, fees arrive, a week passes, the
+    first user claims: it is paid its quarter of the week's fees, the total energy of the new
+    week is the decayed sum, the ledger moved, the balance covers the rest.  (Kept short: kernel
+    evaluation of the function-valued state grows quickly with the number of claims.) -/
 example :
     let e1 : Energy := ⟨7000, 5, 10⟩
     let e2 : Energy := ⟨21000, 5, 10⟩
     let s := run (init 5 1440 [1, 2] [101] [201])
       [.setEnergy 1 e1, .setEnergy 2 e2, .claim 1 none, .claim 2 none, .deposit 101 1 0 1000,
-       .advance 7, .claim 1 none, .claim 2 none]
-    s.w.lastGlobalUpdateWeek = 2 ∧ s.w.totalEnergy 1 = 28000 ∧ s.a.paid 1 1 = 1000 ∧
-    s.a.collected 1 1 = 1000 ∧ s.bal 1 = 0 ∧ s.w.users = [1, 2] := by
+       .advance 7, .claim 1 none]
+    s.w.lastGlobalUpdateWeek = 2 ∧ s.w.totalEnergy 1 = 28000 ∧ s.w.totalEnergy 2 = 27860 ∧
+    s.a.paid 1 1 = 250 ∧ s.a.collected 1 1 = 1000 ∧ s.bal 1 = 750 ∧ s.w.users = [1, 2] := by
   decide
 
 end Mx.C10
